@@ -129,6 +129,15 @@ def gen_regsched(rng):
     return {"mode": "regsched", "kind": rng.choice(["control", "control", "control-sm"]), "max": mx, "n": n, "sched": sched}
 
 
+def qlist_cases(thorough):
+    """a create listed between every two of its storage writes, then sequential creates up to and past the limit"""
+    out = []
+    for mx in ([1, 2, 3, 5] + ([8] if thorough else [])):
+        for pre in sorted({0, mx - 1}):
+            out.append({"mode": "qlist", "max": mx, "pre": pre, "n": mx - pre + 1})
+    return out
+
+
 def qfault_cases(thorough):
     """exhaustive over the read positions of the count (the harness enumerates them) for a few limits"""
     limits = [1, 2, 3, 5, 10] + ([7, 16] if thorough else [])
@@ -165,6 +174,9 @@ def case_value(c, o, variants):
         # a counter below zero cannot be written as a model value: map it to a number no model run produces
         return [2, variants["mapping"], c["max"], [list(op) for op in c["ops"]],
                 [[a if a >= 0 else 999999, b] for a, b in o["counts"]], list(o["outcomes"])]
+    if m == "qlist":
+        return [6, c["max"], c["pre"], list(o["keys"][0]) if o["keys"] else [], o["counts"][0][0] if o["counts"] else 0,
+                o["counts"][0][1] if o["counts"] else 0, c["n"], o["final"]]
     if m == "regsched":
         ops = [[0, 100 + k, k] for k in range(c["max"])] + [[0, 1 + i, 1000 + i] for i in range(c["n"])]
         return [5, c["max"], ops, list(o["keys"][0]) if o["keys"] else []]
@@ -206,6 +218,8 @@ def nontrivial(c, o):
         return not overlap_free(o["sched"], c["threads"]) or 2 in o["outcomes"] or 5 in o["outcomes"]
     if m == "qfault":
         return len(o["outcomes"]) >= 2
+    if m == "qlist":
+        return bool(o["keys"]) and len(o["keys"][0]) >= 2 and 2 in o["outcomes"]
     if m in ("maprace", "regrace"):
         return c["max"] > 0 and c["pre"] + c["n"] > c["max"]
     return False
@@ -246,6 +260,7 @@ def run(ctx, only_cases=None):
         cases += [gen_regsched(rng) for _ in range(30 if thorough else 10)]
         cases += [gen_quota(rng) for _ in range(120 * k)]
         cases += qfault_cases(thorough)
+        cases += qlist_cases(thorough)
         cases += [gen_maprace(rng, 1500 if thorough else 250) for _ in range(16 if thorough else 8)]
         cases += [gen_regrace(rng, 200 if thorough else 30) for _ in range(12 if thorough else 6)]
         cases += [{"mode": "regrace", "kind": "tunnel-tid", "max": m, "pre": m, "n": 8, "trials": 200 if thorough else 30} for m in (1, 2, 3)]
@@ -264,6 +279,8 @@ def run(ctx, only_cases=None):
         if hk in KNOWN_PINNED:
             site, pinned_key, other = KNOWN_PINNED[hk]
             key = pinned_key if variants[site] == 0 else other
+        elif hk in QUOTA_KEYS and c["mode"] == "qlist":
+            key = hk + "-uncounted-code"
         elif hk in QUOTA_KEYS:
             # the recorded defect is the overlap of two admissions between count and create on a tree WITHOUT the per-client
             # admission marker; over the limit on an overlap-free schedule, or on a tree with the marker, is a new failure
@@ -278,7 +295,7 @@ def run(ctx, only_cases=None):
                 small["admitted"] = small["admitted"][:40] + ["..."]
             ctx.violation(key, "real code, mode %s: %s" % (c["mode"], o["prop_msg"]), {"case": c, "observed": small})
 
-    mc = [(c, o) for c, o in zip(cases, outs) if c["mode"] in ("server", "reg", "mapseq", "quota", "qfault", "regsched") and o["prop_key"] != "harness"]
+    mc = [(c, o) for c, o in zip(cases, outs) if c["mode"] in ("server", "reg", "mapseq", "quota", "qfault", "regsched", "qlist") and o["prop_key"] != "harness"]
     terms = [case_value(c, o, variants) for c, o in mc]
     mism = []
     try:
@@ -294,7 +311,7 @@ def run(ctx, only_cases=None):
     reported = set()
     for i in mism:
         c, o = mc[i]
-        key = "model-mismatch-" + c["mode"] + ("-" + c["kind"] if c["mode"] in ("reg", "quota", "qfault", "regsched") else "")
+        key = "model-mismatch-" + c["mode"] + ("-" + c.get("kind", "") if c["mode"] in ("reg", "quota", "qfault", "regsched") else "")
         if key in reported:
             continue
         reported.add(key)
@@ -325,7 +342,8 @@ def run(ctx, only_cases=None):
                 "real TunnelRegistry / ClientRegistry / SessionManager control registrations, non-trivial = limit reached. mapseq: open/close "
                 "histories with real tunnels, non-trivial = a refusal or the limit exceeded. quota: CreateConnectionCode / ActivateConnectionCode "
                 "callers parked at their first storage write by a gated store, non-trivial = two admissions overlap between count and create, "
-                "or a refusal. regsched: a FULL control registry whose connections carry a stream that parks in Close(), k<=max concurrent "
+                "or a refusal. qlist: one CreateConnectionCode parked before every storage write with the client's codes listed at each park point, "
+                "then sequential creates past the limit; oracle = codes that really exist (ground truth per handed-out code) <= limit and = the quota's count. regsched: a FULL control registry whose connections carry a stream that parks in Close(), k<=max concurrent "
                 "Registers of new connections driven by a schedule (start caller / let one parked Close go); count sampled after every step and "
                 "at the end, final key set compared with the model; non-trivial = at least two concurrent callers. mapseq histories include opens "
                 "whose tunnel is closed by its peer between RegisterTunnel and Start (counter must stay >= 0 and equal to the live tunnels). qfault: the same two requests at a FULL quota, once per storage read position of the count (index GetList, every "
